@@ -441,12 +441,14 @@ func (e C19) Execute(plan interface{}, c *core.Ctx) *core.Verdict {
 		wantPrompts := 0
 		var wantClass string
 		switch {
-		case validated:
-			wantClass = plain()
+		// what a file gives is a function of the file (and of the answer when a prompt is due), not of the
+		// identity's past: the scan decides first, whether or not a key is already remembered
 		case scan() == "fatal":
 			wantClass = "fatal"
 		case !match:
 			wantClass = "nomatch"
+		case validated:
+			wantClass = plain()
 		default:
 			wantPrompts = 1
 			switch {
